@@ -676,11 +676,27 @@ func healthStream(cfg *Config) *hx.Stats {
 		// (e) only part of a committed storage is loaded: slab iteration has to fetch the rest from
 		//     the ledger (each slab once); a root that is not loaded is not seen at all
 		if committed && nr > 0 {
-			for variant := 0; variant < 3; variant++ {
+			for variant := 0; variant < 6; variant++ {
 				x := build()
 				x.ps = hx.NewStorage(x.ledger)
 				var load []atree.SlabID
 				label := "lazy-roots"
+				// the new variants draw from their own generator (the draws of the older cases stay what they were)
+				rng2 := rand.New(rand.NewSource(seed*7 + int64(variant)))
+				fetch := func(id atree.SlabID, cached bool) atree.Slab {
+					var s atree.Slab
+					var ok bool
+					var err error
+					if cached {
+						s, ok, err = x.ps.Retrieve(id)
+					} else {
+						s, ok, err = x.ps.RetrieveIgnoringDeltas(id, false)
+					}
+					if err != nil || !ok || s == nil {
+						panic(fmt.Sprintf("committed slab %s cannot be read back: found=%v err=%v", hx.IDStr(id), ok, err))
+					}
+					return s
+				}
 				switch variant {
 				case 0: // the roots only
 					load = x.roots
@@ -692,15 +708,115 @@ func healthStream(cfg *Config) *hx.Stats {
 						}
 					}
 					label = "lazy-some"
-				default: // all but the first root
+				case 2: // all but the first root
 					label = "lazy-root-missing"
 					for _, id := range all {
 						if id != x.roots[0] {
 							load = append(load, id)
 						}
 					}
+				case 3:
+					// loaded through Retrieve instead of BatchPreload, and some slabs PENDING: the roots are
+					// retrieved (cached); of the other slabs a third is stored again after a Retrieve (pending and
+					// cached), a sixth stored after a cache-bypassing read (pending only), a sixth only retrieved
+					// (cached), the rest stays in the ledger
+					label = "lazy-pending"
+					for _, id := range x.roots {
+						fetch(id, true)
+					}
+					for _, id := range nonRoots {
+						switch rng2.Intn(6) {
+						case 0, 1:
+							hcMust(x.ps.Store(id, fetch(id, true)))
+						case 2:
+							hcMust(x.ps.Store(id, fetch(id, false)))
+						case 3:
+							fetch(id, true)
+						}
+					}
+				case 4:
+					// directed: below up to four slabs holding several references, the FIRST referenced slab is
+					// pending (stored again) and its siblings are not loaded; the parent and the roots are cached
+					label = "lazy-pending-first-child"
+					for _, id := range x.roots {
+						fetch(id, true)
+					}
+					var multi []hslab
+					for _, s := range h0 {
+						if len(s.refs) >= 2 {
+							multi = append(multi, s)
+						}
+					}
+					if len(multi) == 0 {
+						continue
+					}
+					for _, i := range rng2.Perm(len(multi))[:min(4, len(multi))] {
+						par := multi[i]
+						fetch(par.id, true)
+						k := 0
+						if i%2 == 1 {
+							k = rng2.Intn(len(par.refs) - 1) // any but the last
+						}
+						hcMust(x.ps.Store(par.refs[k], fetch(par.refs[k], i%4 < 2)))
+					}
+					st.Hit("lazy:pending-child-before-unloaded-sibling")
+				default:
+					// the same situation produced by valid requests: every container is opened by its root
+					// identifier on the new storage and a few of its elements are overwritten (the library loads
+					// the path, stores the modified slabs; the other slabs stay in the ledger)
+					label = "lazy-pending-handle"
+					if len(x.conts) == 0 {
+						continue
+					}
+					pay := uint64(90000000)
+					for _, c := range x.conts {
+						if !c.plain {
+							continue
+						}
+						newVal := func() hx.TV {
+							pay++
+							if rng2.Intn(5) == 0 {
+								return hx.TV{Size: 130 + uint32(rng2.Intn(40)), Pay: pay}
+							}
+							return hx.TV{Size: uint32(10 + rng2.Intn(40)), Pay: pay}
+						}
+						dispose := func(old atree.Storable) {
+							if r, ok := old.(atree.SlabIDStorable); ok {
+								hcMust(x.ps.Remove(atree.SlabID(r)))
+							}
+						}
+						if c.isMap {
+							if len(c.keys) == 0 {
+								continue
+							}
+							b := c.builder
+							if b == nil {
+								b = atree.NewDefaultDigesterBuilder()
+							}
+							m, err := atree.NewMapWithRootID(x.ps, c.root, b)
+							hcMust(err)
+							for j, n := 0, 1+rng2.Intn(3); j < n; j++ {
+								old, err := m.Set(hx.CompareKey, hx.HashInput, c.keys[rng2.Intn(len(c.keys))], newVal())
+								hcMust(err)
+								dispose(old)
+							}
+						} else {
+							if c.n == 0 {
+								continue
+							}
+							a, err := atree.NewArrayWithRootID(x.ps, c.root)
+							hcMust(err)
+							for j, n := 0, 1+rng2.Intn(3); j < n; j++ {
+								old, err := a.Set(uint64(rng2.Intn(c.n)), newVal())
+								hcMust(err)
+								dispose(old)
+							}
+						}
+					}
 				}
-				hcMust(x.ps.BatchPreload(load, 2))
+				if variant < 3 {
+					hcMust(x.ps.BatchPreload(load, 2))
+				}
 				runIter(p, label, x)
 				curProg = p
 				sd, sc, sb := storageState(x.ps, x.ledger, diff)
@@ -713,10 +829,10 @@ func healthStream(cfg *Config) *hx.Stats {
 					}
 					hx.SortIDs(rs)
 					obs = "ok:" + strings.Join(idStrs(rs), ",")
-					if variant < 2 && obs != "ok:"+strings.Join(idStrs(x.roots), ",") {
+					if variant != 2 && obs != "ok:"+strings.Join(idStrs(x.roots), ",") {
 						viol(p, fmt.Sprintf("health check on a partly loaded healthy storage (%s) returned %s, the containers' roots are %v", label, obs, idStrs(x.roots)), "")
 					}
-				} else if variant < 2 {
+				} else if variant != 2 {
 					viol(p, fmt.Sprintf("health check rejected a partly loaded healthy storage (%s): %v", label, err), "")
 				}
 				w.L("STO d=%s c=%s b=%s", heapLine(sd), heapLine(sc), heapLine(sb))
